@@ -467,14 +467,23 @@ def run_layer_rule(ctx: Ctx, res: Result) -> None:
     sym = ctx.run(an)
     rets = [o for o in sym.outcomes if o.kind == "return"]
     ok, detail = False, "are_named() never uses a requested layer name as a raising subscript of the layer definition: a rule naming a layer that was never defined gets a verdict"
+    evidence = False  # something was seen that looks a requested layer name up without raising for an unknown one
+    for ev in sym.events:
+        if ev.args and ev.args[0] is not None and sym.deps(ev.args[0]) == frozenset({p}) and ((ev.kind == "call" and ev.name in ("get", "setdefault", "pop", "__contains__")) or ev.kind == "member"):
+            evidence = True
+            detail = f"`{norm(ev.node, 50)}` in {ev.ctx.qualname} looks a requested layer name up without raising for an undefined one, and no raising subscript of the layer definition is evaluated for every requested layer: a rule naming a layer that was never defined gets a verdict"
     for ev in sym.events:
         if ev.kind != "subscript" or not ev.args:
             continue
         idx = ev.args[0]
+        if isinstance(idx, Opq) and idx.deps == frozenset({p}) and idx.kind not in ("elem", "param"):
+            evidence = True  # e.g. layers[0]: one particular name only
+            detail = f"`{norm(ev.node, 50)}` is not evaluated for every requested layer: a rule naming a layer that was never defined can get a verdict"
         if not (isinstance(idx, Opq) and idx.kind in ("elem", "param") and idx.deps == frozenset({p})):
             continue
         if not any(m_[0] == "b" and m_[1] == "dict" for m_ in members(ev.recv_type)):
             continue
+        evidence = True
         if swallowed(sym, ev, {"KeyError", "LookupError", "Exception", "BaseException", "<bare>"}, bad_outcomes(sym)):
             detail = f"the KeyError of `{norm(ev.node, 50)}` for an undefined layer is caught and are_named() carries on"
             continue
@@ -487,8 +496,11 @@ def run_layer_rule(ctx: Ctx, res: Result) -> None:
             ok, detail = True, f"each requested layer name is looked up with `{norm(ev.node, 50)}` (KeyError for an undefined layer) on every path"
             break
         detail = f"`{norm(ev.node, 50)}` is not evaluated for every requested layer on every path: a rule naming a layer that was never defined can get a verdict"
+    hand = _handoffs(sym, p) if not ok and not evidence else []
     if not rets:
         res.undecide("C13.R6", repo.key(an, "layer lookup"), "LayerRule.are_named never returns normally in the symbolic run", where(an, an.node))
+    elif hand:
+        res.undecide("C13.R6", f"{an.relpath}::LayerRule.are_named::every requested layer is looked up", f"the requested layer names are handed to `{norm(hand[0].node, 60)}` in {hand[0].ctx.qualname}, which the symbolic run could not follow, and no lookup of a layer name was seen at all: the lookup may happen in there", where(hand[0].ctx, hand[0].node))
     else:
         res.add("C13.R6", f"{an.relpath}::LayerRule.are_named::every requested layer is looked up", ok, detail, where(an, an.node), kind="dominance")
 
